@@ -10,10 +10,14 @@ EXTENDS Attrs, Args, TLC, Json, IOUtils
 
 Scen == ndJsonDeserialize(IOEnv.C19_SCEN)
 Eff(s) == Effective(s.prog, s.dflt, s.xzopt, s.cmd)
+(* the list given with --files / --files0 holds the name between empty entries *)
+TheName(s) == IF s.via = "cmd" THEN s.srcName ELSE ListNames(<< <<>>, s.srcName, <<>>, <<>> >>)[1]
+Stdin(s) == IsStdinName(s.via, TheName(s))
 Cfg(s) == LET e == Eff(s) IN
-    [id |-> s.id, opmode |-> e.mode, keep |-> e.keep, force |-> e.force, stdout |-> e.stdout,
+    [id |-> s.id, opmode |-> e.mode, keep |-> e.keep, force |-> e.force, stdout |-> (e.stdout \/ Stdin(s)), optStdout |-> e.stdout,
+     tail |-> s.tail, nosparse |-> e.nosparse,
      nowarn |-> e.nowarn, quiet |-> e.quiet,
-     kind |-> s.kind, smode |-> s.smode, nlink |-> s.nlink, uidSame |-> s.uidSame, gidSame |-> s.gidSame,
+     kind |-> (IF Stdin(s) THEN "stdin" ELSE s.kind), smode |-> s.smode, nlink |-> s.nlink, uidSame |-> s.uidSame, gidSame |-> s.gidSame,
      dstKind |-> s.dstKind, nameOK |-> (Target(e, s.srcName).kind = "name"), payloadOK |-> s.payloadOK,
      ownOK |-> s.ownOK, grpOK |-> s.grpOK, chmodOK |-> s.chmodOK, root |-> s.root]
 GInit == \E i \in 1..Len(Scen) : ~Eff(Scen[i]).fatal /\ AInit(Cfg(Scen[i]))
@@ -22,6 +26,6 @@ EmitDone == pc = "done" =>
     LET s == CHOOSE x \in {Scen[i] : i \in 1..Len(Scen)} : x.id = cfg.id
         e == Eff(s) IN
     PrintT(<<"PLAN", ToJson([id |-> cfg.id, sys |-> sys, msgs |-> msgs, exit |-> ExitOf, stderr |-> StderrOf,
-                             srcThere |-> srcThere, dst |-> dst, eff |-> e, nameOK |-> cfg.nameOK,
+                             srcThere |-> srcThere, dst |-> dst, eff |-> e, nameOK |-> cfg.nameOK, stdinSrc |-> Stdin(s),
                              dstName |-> Target(e, s.srcName).name])>>)
 =============================================================================
